@@ -485,7 +485,9 @@ def overlap_case_st(draw):
             c_["titan"] = False  # where a Titan path ends when it contains ';' is left to the implementation
     return {"chain": chain, "conns": conns, "schedule": draw(st.lists(st.integers(0, 59), max_size=14)),
             # how long the slow components take before they answer (virtual seconds)
-            "think": draw(st.sampled_from([0, 0, 6.0, 20.0]))}
+            "think": draw(st.sampled_from([0, 0, 6.0, 20.0])),
+            # the chain handed to the protocol is flat, or built from smaller chains (a chain is itself a component)
+            "nested": draw(st.sampled_from([0, 0, 1, 2]))}
 
 
 def run_overlap(case: dict):
@@ -506,6 +508,11 @@ def run_overlap(case: dict):
         real = _real_components(case)
         specs = [{**c, "name": c.get("_key")} if c["kind"] == "real" else c for c in case["chain"]]
         mw = srvsim.build_middleware(sim, specs, real)
+        if case.get("nested") and len(mw.middlewares) >= 1:
+            from nauyaca.server.middleware import MiddlewareChain
+
+            k = min(case["nested"], len(mw.middlewares))
+            mw = MiddlewareChain([MiddlewareChain(list(mw.middlewares[:k])), *mw.middlewares[k:]])
         trs, fed = [], []
         for i, c in enumerate(case["conns"]):
             tr = FakeTransport(loop, peername=(c["peer"], 50000 + i), peer_der=certs.get(c["cert"]).der if c["cert"] else None)
